@@ -4,6 +4,8 @@ From Curies.model Require Import Str PyData Conv Loaders Val Spec CheckQ Writers
 From Curies.proofs Require Import StrFacts DictFacts WritersFacts.
 From Curies.model Require Import JsonStr ShaclText.
 From Curies.proofs Require Import JsonStrFacts ShaclTextFacts.
+From Curies.model Require Import JsonDoc.
+From Curies.proofs Require Import JsonDocFacts.
 
 (* extended prefix map: prefix, URI prefix and pattern exact (also pattern = ""), synonym sets equal (lists sorted) *)
 Theorem C14_epm : forall r, record_of_dict (record_to_dict r) = Some (normalise r).
@@ -79,3 +81,23 @@ Theorem C14_shacl_raw_never_roundtrips : forall p u pat u' pat', forallb turtle_
   shacl_parse_line (shacl_line_raw p u pat) <> Some (p, u', pat').
 Proof. exact shacl_line_raw_never_roundtrips. Qed.
 Print Assumptions C14_shacl_raw_never_roundtrips.
+
+(* whole JSON DOCUMENTS as json.dumps(..., indent=4, sort_keys=True) writes them and json.load reads them (model/JsonDoc.v, validated
+   against CPython on 17 900 documents and texts): a value whose objects have unique keys comes back with its keys sorted, exactly when
+   (under ensure_ascii) no key or string contains a surrogate pair written as two code points *)
+Theorem C14_json_doc_roundtrip : forall ascii v, jv_rt_ok ascii v = true -> json_parse (json_dump ascii v) = Some (sort_keys v).
+Proof. exact json_doc_roundtrip. Qed.
+Print Assumptions C14_json_doc_roundtrip.
+Theorem C14_json_doc_roundtrip_iff : forall ascii v, jv_keys_unique v = true -> jv_wf ascii v = true ->
+  (json_parse (json_dump ascii v) = Some (sort_keys v) <-> jv_rt_ok ascii v = true).
+Proof. exact json_doc_roundtrip_iff. Qed.
+Print Assumptions C14_json_doc_roundtrip_iff.
+(* the extended prefix map FILE: the text write_extended_prefix_map produces for the records, parsed and turned back into records,
+   gives the records with sorted synonym lists -- for every list of records, no hypothesis (ensure_ascii=False) *)
+Theorem C14_epm_text : forall rs, epm_records_read (epm_records_write rs) = Some (map normalise rs).
+Proof. exact epm_records_roundtrip. Qed.
+Print Assumptions C14_epm_text.
+(* the JSON-LD context FILE (ensure_ascii=True): the terms come back, sorted by key, when no term or value holds a surrogate pair *)
+Theorem C14_jsonld_text : forall ctx, jsonld_ok ctx = true -> jsonld_read (jsonld_write ctx) = Some (sort_by_key fst ctx).
+Proof. exact jsonld_text_roundtrip. Qed.
+Print Assumptions C14_jsonld_text.
